@@ -177,6 +177,107 @@ def _armijo(fn):
     raise Untranslatable("_is_doing_for_alpha: return comparison not found")
 
 
+def _main_loop(optimize, what):
+    for n in optimize.body:
+        if isinstance(n, ast.For) and isinstance(n.iter, ast.Call) and getattr(n.iter.func, "id", "") == "range":
+            return n
+    raise Untranslatable(f"{what}: `for k in range(...)` loop not found")
+
+
+def _assign_in(node, target, what):
+    """source text of the value assigned to the plain name `target` inside `node` (first non-constant assignment)"""
+    for n in ast.walk(node):
+        if isinstance(n, ast.Assign) and len(n.targets) == 1 and isinstance(n.targets[0], ast.Name) and n.targets[0].id == target \
+                and not isinstance(n.value, ast.Constant):
+            return ast.unparse(n.value)
+    raise Untranslatable(f"{what}: assignment to {target} not found")
+
+
+def _err_exprs(optimize, what):
+    """the expression assigned to `error_value` in each branch of the stopping-criterion chain, in chain order"""
+    for n in ast.walk(optimize):
+        if isinstance(n, ast.If) and isinstance(n.test, ast.Compare) and isinstance(n.test.left, ast.Attribute) \
+                and n.test.left.attr == "mode_stopping_criterion_gradient_descent":
+            out, cur = [], n
+            while True:
+                if not (len(cur.body) == 1 and isinstance(cur.body[0], ast.Assign) and cur.body[0].targets[0].id == "error_value"):
+                    raise Untranslatable(f"{what}: branch body is not `error_value = ...`")
+                out.append(ast.unparse(cur.body[0].value))
+                if len(cur.orelse) == 1 and isinstance(cur.orelse[0], ast.If):
+                    cur = cur.orelse[0]
+                else:
+                    return out
+    raise Untranslatable(f"{what}: error_value chain not found")
+
+
+def _default_eps(opt_init, settings_tree):
+    """`if eps is None: eps = Settings.get_atol() / <c>` and `__first_default_atol = <c>`"""
+    div = None
+    for n in ast.walk(opt_init):
+        if isinstance(n, ast.If) and isinstance(n.test, ast.Compare) and isinstance(n.test.left, ast.Name) and n.test.left.id == "eps" \
+                and isinstance(n.test.ops[0], ast.Is):
+            v = n.body[0].value
+            if isinstance(v, ast.BinOp) and isinstance(v.op, ast.Div) and ast.unparse(v.left) == "Settings.get_atol()" \
+                    and isinstance(v.right, ast.Constant):
+                div = v.right.value
+    atol = None
+    for n in ast.walk(settings_tree):
+        if isinstance(n, ast.Assign) and isinstance(n.targets[0], ast.Name) and n.targets[0].id.endswith("first_default_atol") \
+                and isinstance(n.value, ast.Constant):
+            atol = n.value.value
+    if div is None or atol is None:
+        raise Untranslatable("default eps: `eps = Settings.get_atol() / c` or `__first_default_atol = c` not found")
+    return atol, div
+
+
+def _suff_conditions(fn):
+    """is_option_sufficient: the tests of the if/elif chain that return False"""
+    out = []
+    for n in ast.walk(fn):
+        if isinstance(n, ast.If) and len(n.body) == 1 and isinstance(n.body[0], ast.Return) \
+                and isinstance(n.body[0].value, ast.Constant) and n.body[0].value.value is False:
+            out.append(ast.unparse(n.test))
+    return out
+
+
+LME = "quara/protocol/qtomography/standard/loss_minimization_estimator.py"
+PLE = "quara/protocol/qtomography/standard/projected_linear_estimator.py"
+
+
+def _glue(lme_tree, ple_tree):
+    fn = _func(lme_tree, "LossMinimizationEstimator", "calc_estimate_sequence")
+    loop = next((n for n in fn.body if isinstance(n, ast.For)), None)
+    if loop is None:
+        raise Untranslatable("LossMinimizationEstimator.calc_estimate_sequence: data loop not found")
+    setup, checks, opt_call, appended = [], [], None, None
+    for n in loop.body:
+        if isinstance(n, ast.Expr) and isinstance(n.value, ast.Call) and isinstance(n.value.func, ast.Attribute) \
+                and isinstance(n.value.func.value, ast.Name) and n.value.func.value.id in ("loss", "algo"):
+            setup.append(f"{n.value.func.value.id}.{n.value.func.attr}")
+        elif isinstance(n, ast.If) and isinstance(n.test, ast.Compare) and isinstance(n.test.left, ast.Call) \
+                and isinstance(n.test.comparators[0], ast.Constant) and n.test.comparators[0].value is False \
+                and len(n.body) == 1 and isinstance(n.body[0], ast.Raise):
+            checks.append(ast.unparse(n.test.left.func))
+        elif isinstance(n, ast.Assign) and isinstance(n.value, ast.Call) and ast.unparse(n.value.func) == "algo.optimize":
+            opt_call = ast.unparse(n.value)
+        elif isinstance(n, ast.Expr) and isinstance(n.value, ast.Call) and ast.unparse(n.value.func) == "estimated_var_sequence.append":
+            appended = ast.unparse(n.value.args[0])
+    if not (setup and len(checks) == 4 and opt_call and appended):
+        raise Untranslatable("LossMinimizationEstimator.calc_estimate_sequence: loop body of unexpected shape")
+    pfn = _func(ple_tree, "ProjectedLinearEstimator", "calc_estimate_sequence")
+    ploop = next((n for n in pfn.body if isinstance(n, ast.For)), None)
+    if ploop is None:
+        raise Untranslatable("ProjectedLinearEstimator.calc_estimate_sequence: loop not found")
+    pcalls = [ast.unparse(n.value) for n in ast.walk(ploop)
+              if isinstance(n, (ast.Expr, ast.Assign)) and isinstance(n.value, ast.Call)
+              and ast.unparse(n.value.func).startswith("linear_estimate.")]
+    pappend = [ast.unparse(n.value.args[0]) for n in ast.walk(ploop) if isinstance(n, ast.Expr) and isinstance(n.value, ast.Call)
+               and ast.unparse(n.value.func) == "proj_estimated_var_sequence.append"]
+    psource = [ast.unparse(n.value) for n in pfn.body if isinstance(n, ast.Assign) and isinstance(n.targets[0], ast.Name)
+               and n.targets[0].id in ("result", "linear_estimates")][:2]
+    return setup, checks, opt_call, appended, pcalls, pappend, psource
+
+
 def lstr(xs):
     return "[" + ", ".join('"' + x.replace('"', '\\"') + '"' for x in xs) + "]"
 
@@ -206,6 +307,37 @@ def translate():
     a0, a1 = _line_search(opt_b)
     arm = _armijo(_func(pgdb, "ProjectedGradientDescentBacktracking", "_is_doing_for_alpha"))
     bdflt = _defaults(_func(pgdb, "ProjectedGradientDescentBacktrackingOption", "__init__"))
+
+    opt_m = _func(pgdm, "ProjectedGradientDescentWithMomentum", "optimize")
+    opt_f = _func(fista, "ProjectedFastIterativeShrinkageThresholdingAlgorithm", "optimize")
+    lb, lm, lf = _main_loop(opt_b, "backtracking"), _main_loop(opt_m, "momentum"), _main_loop(opt_f, "fista")
+    arm_fn = _func(pgdb, "ProjectedGradientDescentBacktracking", "_is_doing_for_alpha")
+    updates = [
+        ("pgdb.y_prev", _assign_in(lb, "y_prev", "backtracking")),
+        ("pgdb.x_next", _assign_in(lb, "x_next", "backtracking")),
+        ("pgdb.armijo.left", _assign_in(arm_fn, "left_side", "_is_doing_for_alpha")),
+        ("pgdb.armijo.right", _assign_in(arm_fn, "right_side", "_is_doing_for_alpha")),
+        ("pgdb.start", _assign_in(opt_b.body[[i for i, n in enumerate(opt_b.body) if isinstance(n, ast.If)
+                                                and "var_start" in ast.unparse(n.test)][0]], "x_prev", "backtracking start")),
+        ("pgdm.moment_next", _assign_in(lm, "moment_next", "momentum")),
+        ("pgdm.x_next", _assign_in(lm, "x_next", "momentum")),
+        ("pgdm.zeta", _assign_in(lm, "zeta", "momentum")),
+        ("pgdm.magnitude", _assign_in(lm, "magnitude_next", "momentum")),
+        ("fista.tmp", _assign_in(lf, "tmp", "fista")),
+        ("fista.x_next", _assign_in(lf, "x_next", "fista")),
+        ("sum_range", _assign_in(lb, "sum_range", "backtracking")),
+        ("window", _assign_in(lb, "value", "backtracking")),
+    ]
+    errs = {"Pgdb": _err_exprs(opt_b, "backtracking"), "Pgdm": _err_exprs(opt_m, "momentum"), "Fista": _err_exprs(opt_f, "fista")}
+    atol, epsdiv = _default_eps(opt_init, _tree("quara/settings.py"))
+    suff = {
+        "Pgdb": _suff_conditions(_func(pgdb, "ProjectedGradientDescentBacktracking", "is_option_sufficient")),
+        "Pgdm": _suff_conditions(_func(pgdm, "ProjectedGradientDescentWithMomentum", "is_option_sufficient")),
+        "Fista": _suff_conditions(_func(fista, "ProjectedFastIterativeShrinkageThresholdingAlgorithm", "is_option_sufficient")),
+    }
+    mdflt = _defaults(_func(pgdm, "ProjectedGradientDescentWithMomentumOption", "__init__"))
+
+    g_setup, g_checks, g_opt, g_app, p_calls, p_app, p_src = _glue(_tree(LME), _tree(PLE))
 
     def row(e, i, name, args):
         if e is None:
@@ -265,6 +397,40 @@ def stopElse : Bool := {str(bool(cmp_[4])).lower()}
 def defaultGamma : Rat := {rat(bdflt.get("gamma", 0))}
 def defaultMaxIterationOptimization : Nat := {int(bdflt.get("max_iteration_optimization", 0))}
 def defaultMaxIterationProjPhysical : Nat := {int(bdflt.get("max_iteration_proj_physical", 0))}
+
+
+/-- default stopping threshold: `eps = Settings.get_atol() / epsDivisor`, `Settings.__first_default_atol = defaultAtol` -/
+def defaultAtol : Rat := {rat(atol)}
+def epsDivisor : Rat := {rat(epsdiv)}
+def defaultEps : Rat := defaultAtol / epsDivisor
+
+/-- the value assigned to `error_value` in each branch of the stopping-criterion chain (same order as `dispatch…`) -/
+def errExprPgdb : List String := {lstr(errs["Pgdb"])}
+def errExprPgdm : List String := {lstr(errs["Pgdm"])}
+def errExprFista : List String := {lstr(errs["Fista"])}
+
+/-- the update formulas of the three loops, the line-search sides, the start point and the window sum, as source text -/
+def updateExprs : List (String × String) := [
+{(",\n").join('  ("' + k + '", "' + v.replace('"', '\\"') + '")' for k, v in updates)}
+]
+
+/-- `is_option_sufficient`: the conditions under which each algorithm rejects its option object -/
+def insufficientPgdb : List String := {lstr(suff["Pgdb"])}
+def insufficientPgdm : List String := {lstr(suff["Pgdm"])}
+def insufficientFista : List String := {lstr(suff["Fista"])}
+def defaultMomentumR : Rat := {rat(mdflt.get("r", 0))}
+
+/-- `LossMinimizationEstimator.calc_estimate_sequence`, body of the data loop: configuration calls in order, the four validations
+in order, the optimize call, the value appended to `estimated_var_sequence` -/
+def lmeSetupCalls : List String := {lstr(g_setup)}
+def lmeValidationOrder : List String := {lstr(g_checks)}
+def lmeOptimizeCall : String := "{g_opt}"
+def lmeAppended : String := "{g_app}"
+/-- `ProjectedLinearEstimator.calc_estimate_sequence`: where the linear estimates come from, the calls on each of them, what is
+appended (with / without computation times) -/
+def pleSource : List String := {lstr(p_src)}
+def pleLoopCalls : List String := {lstr(p_calls)}
+def pleAppended : List String := {lstr(p_app)}
 
 end QGen.C10
 '''
